@@ -896,3 +896,85 @@ def check_encoder_tokens(ctx, rep, RULE):
     rep.ob(RULE, not missing, missing[0][0] if missing else F.node, F, construct="atom symbols appended by the fragment printer", how="each is reported in an AttributionMap",
            witness=None if not missing else "an atom symbol is emitted without an attribution entry", key="enc-atom/covered", nontrivial=True)
     return F
+
+
+def check_parser_positions(ctx, rep, RULE):
+    """TE4 (convention-independent): whatever position scheme the SMILES parser uses, it treats all bond symbols alike:
+    the position an atom gets advances by the same amount for every bond symbol of the folded SMILES_BOND_ORDERS table
+    ('-' included), and by no more when no symbol is written.  Decided by running the abstract interpreter on the
+    atom-attaching function once per bond symbol (a finite alphabet read from the table, not inputs)."""
+    s2m = ctx.fn("selfies.utils.smiles_utils.smiles_to_mol")
+    s2b = ctx.fn("selfies.utils.smiles_utils.smiles_to_bond")
+    cls = ctx.db.classes["selfies.mol_graph.MolecularGraph"]
+    add_atom = cls.methods["add_atom"]
+    F = None
+    for q in ctx.cg.region(s2m):
+        g = ctx.db.funcs[q]
+        if g.cls is None and any(add_atom in s.callees for s in ctx.cg.sites(g)):
+            F = g
+    if F is None:
+        raise AnalysisError("atom-attaching parser function not found")
+    bp = None
+    for s in ctx.cg.sites(F):
+        if s2b in s.callees and isinstance(s.node, ast.Call) and s.node.args and isinstance(s.node.args[0], ast.Name) and s.node.args[0].id in F.params:
+            bp = s.node.args[0].id
+    if bp is None:
+        for n in own_nodes(F.node):
+            if isinstance(n, ast.If) and isinstance(n.test, ast.Name) and n.test.id in F.params:
+                bp = n.test.id
+    ip = None
+    for r in own_nodes(F.node):
+        if isinstance(r, ast.Return) and isinstance(r.value, ast.Tuple):
+            for e in r.value.elts:
+                if isinstance(e, ast.Name) and e.id in F.params and any(isinstance(n, ast.AugAssign) and isinstance(n.target, ast.Name) and n.target.id == e.id
+                                                                         for n in own_nodes(F.node)):
+                    ip = (e.id, r.value.elts.index(e))
+    if bp is None or ip is None:
+        rep.note("position bookkeeping of %s not recognised: uniform treatment of bond symbols not decided" % F.qual)
+        return
+    table = ctx.fold.global_value("selfies.utils.smiles_utils", "SMILES_BOND_ORDERS")
+    if not isinstance(table, dict) or not table:
+        raise AnalysisError("SMILES_BOND_ORDERS does not fold")
+    symbols = sorted(k for k in table if isinstance(k, str))
+
+    class H(Hooks):
+        def on_call(self, eng, fr, node, callee, args, kwargs, st):
+            if hasattr(callee, "cls") and callee.cls is not None and callee.cls.name == "MolecularGraph":
+                s2 = st.copy()
+                s2.epoch += 1
+                return [(s2, Unk(eng.fresh("graph")))]
+            if hasattr(callee, "qual") and getattr(callee, "name", "") == "Attribution":
+                return [(st, Unk(eng.fresh("attr")))]
+            return None
+    deltas = {}
+    i0 = Lin.var(("i0",))
+    for c in [None] + symbols:
+        eng = Engine(ctx, H())
+        fr = eng.run_function(F, {bp: Con(c), ip[0]: Num(i0)})
+        ds = set()
+        for s, v in fr.returns:
+            if isinstance(v, Tup) and len(v.items) > ip[1] and isinstance(v.items[ip[1]], Num):
+                d = v.items[ip[1]].lin - i0
+                ds.add(int(d.k) if d.is_const() and d.k.denominator == 1 else None)
+            else:
+                ds.add(None)
+        if not fr.returns:
+            continue
+        deltas[c] = ds
+    det = {c: next(iter(d)) for c, d in deltas.items() if len(d) == 1 and None not in d}
+    undet = sorted(repr(c) for c in deltas if c not in det)
+    per = det
+    vals = {per[c] for c in symbols if c in per}
+    differ = len(vals) > 1 or (None in per and vals and per[None] > min(vals))
+    if not differ and undet:
+        rep.note("position increment of %s is not a constant for bond symbol(s) %s: uniform treatment not decided" % (F.qual, undet))
+        rep.ob(RULE, True, F.node, F, construct="position advance per bond symbol (decided for %d of %d)" % (len(det), len(deltas)),
+               how="no two decided symbols differ", key="uniform-bond-symbols/partial")
+        return
+    ok = not differ
+    common = max(vals, key=lambda v: sum(1 for c in symbols if per.get(c) == v)) if vals else None
+    odd = sorted(c for c in symbols if c in per and per[c] != common)
+    rep.ob(RULE, ok, F.node, F, construct="position advance per bond symbol in %s: %s" % (F.name, {repr(k): v for k, v in per.items()}),
+           how="the same for every bond symbol of SMILES_BOND_ORDERS, not larger without a symbol", nontrivial=True, key="uniform-bond-symbols",
+           witness=None if ok else "bond symbol(s) %s are counted differently from the others when positions are assigned: every atom after such "
+                                   "a bond is attributed to the wrong token position" % (odd or sorted(symbols)))
